@@ -10,6 +10,7 @@ From M Require InputInv.
 From M Require ArrayReaders.
 From M Require ExprScenario.
 From M Require Tie.
+From M Require LexTok.
 From M Require Dispatch.
 From M Require ExprModel.
 From M Require Framing2.
@@ -258,4 +259,25 @@ Theorem C01_tie_char_classes :
 Proof. exact (@Tie.tie_char_classes). Qed.
 End T_tie_char_classes.
 Definition C01_tie_char_classes := @T_tie_char_classes.C01_tie_char_classes.
+
+Module T_ppd_tok. Import LexTok. Local Open Scope bool_scope. Local Open Scope Z_scope.
+Import LexModel LexBounds UnitProgress. Local Open Scope Z_scope.
+Theorem C01_ppd_tok :
+  forall l,
+  let r := parse_program_data l in
+  0 <= ptr (tok r) /\ 0 <= len (tok r) /\ ptr (tok r) + len (tok r) <= Z.of_nat (length l) /\
+  (is_num (ty (tok r)) = true -> ptr (tok r) < Z.of_nat (length l) /\ numstart (getb l (ptr (tok r))) = true).
+Proof. exact (@LexTok.ppd_tok). Qed.
+End T_ppd_tok.
+Definition C01_ppd_tok := @T_ppd_tok.C01_ppd_tok.
+
+Module T_data_inside_unit. Import LexTok. Local Open Scope bool_scope. Local Open Scope Z_scope.
+Import LexModel LexBounds UnitProgress. Local Open Scope Z_scope.
+Theorem C01_data_inside_unit :
+  forall l,
+  let u := detect_unit l in
+  0 <= ptr (u_data u) /\ 0 <= len (u_data u) /\ ptr (u_data u) + len (u_data u) <= Z.of_nat (length l).
+Proof. exact (@LexTok.data_inside_unit). Qed.
+End T_data_inside_unit.
+Definition C01_data_inside_unit := @T_data_inside_unit.C01_data_inside_unit.
 
